@@ -39,7 +39,9 @@ Step(a) == LET x == Alpha[a] IN
     [] x[1] = "mode" -> SetCtrlHandling(x[2])
     [] x[1] = "layout" -> ChangeLayout(x[2])
 
-CInit == EventInit("Map", 0) /\ i = 1
+(* the mode the object was constructed with ("Map" unless the component name ends in "_ign") *)
+InitMode == IF Comp \in {"event_ign", "kb2_ign"} THEN "Ignore" ELSE "Map"
+CInit == EventInit(InitMode, 0) /\ i = 1
 CNext == \E a \in 1..NA : G[i].expanded /\ G[i].post[a] # 0 /\ Step(a) /\ i' = G[i].post[a]
 CSpec == CInit /\ [][CNext]_cvars
 
